@@ -13,8 +13,17 @@ TB_CODEC_ENC = [
     "Box<dyn MappingsEncoder> dispatch in create_encoder and the for_each driver loops of encode_mappings/get_map are outside the proof (rule D1 drops the trait)",
 ]
 
+TB_ROPE = [
+    "unit rope_core: assume_specification for Rc::make_mut (value seen through the Rc unchanged; returned reference is the Rc's content), Vec::reserve_exact, str::get (Some exactly when vstd's in_bounds holds), "
+    "<[T]>::get_unchecked and str::get_unchecked (requires = their documented safety precondition), Result::unwrap_or_else, <[T]>::binary_search_by "
+    "(std's documented contract PLUS `last_match`: among several Equal elements the pinned std returns the last one - Rope::get_byte needs it for a rope that starts with an empty piece; the twin re-checks this on the pinned toolchain)",
+    "axioms: a str is at most usize::MAX bytes long (vstd's str::len is spec_bytes().len() as usize); a Vec holds at most usize::MAX elements",
+    "rules V1 M1 M3 P1 P2 D3 D8 C3 C4 C5 C6 G2 R2t (contracts/rope_core.py): G2 instantiates `R: RangeBounds<usize>` at (Bound<usize>, Bound<usize>), the most general instance; R2t turns `(a..b).try_for_each(|i| {..})?` into the equivalent `for` loop",
+    "Rope total length fits usize (requires of add/append): pieces are borrowed, so the same memory can be appended repeatedly; exceeding usize::MAX needs > 2^64 bytes of pieces",
+]
+
 from vx.kstages import k1_replace_inv, k2_eq_hash, k4_with_indices, k5_codec_cross  # noqa: E402
-from vx.witness import c19_witness, codec_witness, eqhash_witness, mixed_witness, replace_witness  # noqa: E402
+from vx.witness import c19_witness, codec_witness, eqhash_witness, mixed_witness, replace_witness, rope_witness  # noqa: E402
 
 PLAN = {
     "C12": {
@@ -39,7 +48,7 @@ PLAN = {
     "C17": {
         "level": "proof",
         "witness": mixed_witness,
-        "verus_units": ["codec_dec", "codec_enc", "replace_splice", "replace_helpers", "helpers_tokens", "rope_bounds"],
+        "verus_units": ["codec_dec", "codec_enc", "replace_splice", "replace_helpers", "helpers_tokens", "rope_bounds", "rope_core"],
         "extra_stages": [k5_codec_cross],
         "kani": True,
         "technique": "contract-based deductive verification (Verus): overflow/shift/index/termination obligations of the real decoder and encoders under a representation invariant",
@@ -73,7 +82,7 @@ PLAN = {
     "C19": {
         "level": "proof",
         "witness": c19_witness,
-        "verus_units": ["codec_enc"],
+        "verus_units": ["codec_enc", "rope_core"],
         "extra_stages": [k4_with_indices],
         "kani": True,
         "engine": "verus-extract + kani-scratch",
@@ -91,7 +100,7 @@ PLAN = {
     "C05": {
         "level": "proof",
         "witness": replace_witness,
-        "verus_units": ["replace_splice"],
+        "verus_units": ["replace_splice", "rope_core"],
         "extra_stages": [k1_replace_inv],
         "kani": True,
         "engine": "verus-extract + kani-scratch",
@@ -109,6 +118,22 @@ PLAN = {
         "assumptions": ["inner.source() is a function of the inner object (trait-level spec view `text()`)", "inner text < 4 GiB", "sum of content lengths fits usize (capacity hint dropped by D3)"],
         "not_covered": ["rope.rs itself (Rope::new/len/byte_slice/append/add enter rope() as assumed contracts)", "buffer()/to_writer() (Cow pattern match, dyn Write)", "map()/stream_chunks of ReplaceSource", "n > 3 replacements for the itertools sort (bounded Kani stage)"],
         "design_ref": "DESIGN.md §4/C05",
+    },
+    "C16": {
+        "level": "proof",
+        "witness": rope_witness,
+        "verus_units": ["rope_core", "rope_bounds"],
+        "technique": "contract-based deductive verification (Verus) of the real Rope constructors, mutators, byte lookup and slicing against the flat string the pieces denote, under a representation invariant, extracted mechanically each run",
+        "claim": "Partial, unbounded proof: with bytes() = concatenation of the pieces and the invariant `every piece records its start offset, total fits usize`, the real Rope::new / From<&str> / add / append "
+                 "establish or preserve the invariant and denote exactly the concatenated text for every piece division (all four representation combinations of append, shared piece tables through Rc::make_mut); "
+                 "len() is the text's length; get_byte(i) is Some(text[i]) exactly for i < len; get_byte_slice_impl / get_byte_slice / byte_slice return the sub-text exactly for ranges that are in order, in bounds and on char "
+                 "boundaries of the TEXT (char boundaries of a piece are char boundaries of the text and vice versa: UTF-8 lemmas over vstd) and None/Err exactly otherwise, for every kind of range bound; no overflow, underflow or "
+                 "out-of-range index on that path. Not decided: from_iter, lines, char_indices, starts_with, ends_with, equality, hash, to_string, to_bytes, byte_slice_unchecked's result.",
+        "note": "Partial. Trusted: Verus/Z3/vstd, extraction rules, the assume_specifications and two axioms listed in the evidence; get_byte additionally relies on the pinned std's binary_search_by returning the last match.",
+        "trusted_base": TB_VERUS + TB_ROPE,
+        "assumptions": ["total rope length fits usize (requires of add/append)", "binary_search_by returns the last of several equal elements (pinned std; used by get_byte only)"],
+        "not_covered": ["Rope::from_iter (iterator adapter chain)", "Lines / CharIndices iterators", "starts_with / ends_with / PartialEq / Hash / to_string / to_bytes", "byte_slice_unchecked (only its callers' view)"],
+        "design_ref": "DESIGN.md §4/C16",
     },
     "C14": {
         "level": "model_checking",
